@@ -87,7 +87,7 @@ def run_tracker(chk, replay):
     else:
         t1, st1 = vf.tlc_gen("IqTrackerGen.tla", "IqTrackerGenTour.cfg")
         t2, st2 = vf.tlc_gen("IqTrackerGen.tla", "IqTrackerGenTour2.cfg")
-        sim, st3 = vf.tlc_simulate("IqTrackerGen.tla", "IqTrackerGenSim.cfg", num=250 if quick else 5000, depth=14 if quick else 24,
+        sim, st3 = vf.tlc_simulate("IqTrackerGen.tla", "IqTrackerGenSim.cfg", num=150 if quick else 5000, depth=14 if quick else 24,
                                    seed=chk.seed, workers=TLC_WORKERS)
         allp, st5 = vf.tlc_gen("IqTrackerGen.tla", "IqTrackerGenAll.cfg" if quick else "IqTrackerGenAll7.cfg")
         gen = {"all_paths": st5, "tour_1_request": st1, "tour_2_requests": st2, "simulate": st3}
@@ -115,21 +115,126 @@ def run_tracker(chk, replay):
     _report(chk, s, behs, cases, "tracker", "q")
 
 
+def _api_names():
+    r = subprocess.run([vf.QXV, "iqapi", "--list=1"], stdout=subprocess.PIPE, stderr=subprocess.PIPE, text=True)
+    if r.returncode != 0:
+        raise vf.MachineryError("qxv iqapi --list failed: " + r.stderr[-500:])
+    return json.loads(r.stdout)
+
+
+def _replay_api(chk, behs):
+    """Replay; an execution that crashes the process (sanitizer abort inside the library) is recorded
+    and the replay continues with the next behaviour."""
+    bpath = chk.path("behaviours-api.ndjson")
+    vf.write_ndjson(bpath, behs)
+    trace = chk.path("trace-api.ndjson")
+    open(trace, "w").close()
+    crashes = []
+    first, wall = 1, 0.0
+    while first <= len(behs):
+        part = chk.path("trace-api.part.ndjson")
+        r = vf.qxv("iqapi", part, in_path=bpath, seed=chk.seed, tier=chk.tier, opts={"first": first}, check=False)
+        wall += r["wall_s"]
+        vf.repair_truncated(part)
+        lines = vf.read_ndjson(part)
+        crashed = r["rc"] != 0 or r["sanitizer"]
+        last_case = None
+        for o in lines:
+            if o.get("e") == "Reset":
+                last_case = int(o["case"][1:])
+        if crashed:
+            if last_case is None:
+                raise vf.MachineryError(f"qxv iqapi died before its first execution:\n{r['stderr'][-2000:]}")
+            # the execution that was running is cut off after its last complete line; mark it
+            lines.append({"e": "Crash", "what": vf.san_signature(r)})
+            crashes.append((last_case, vf.san_signature(r), r["stderr"][-1500:]))
+        with open(trace, "a") as f:
+            for o in lines:
+                f.write(json.dumps(o, separators=(",", ":")) + "\n")
+        if not crashed:
+            break
+        first = last_case + 1
+        if len(crashes) >= 120:
+            chk.note("more than 120 executions crashed the harness process: replay of the manager layer stopped early")
+            break
+    cases = vf.split_cases(trace)
+    s = vf.tlc_trace("IqApiTrace.tla", "IqApiTrace.cfg", trace)
+    s["replay_wall_s"] = round(wall, 2)
+    return s, cases, crashes
+
+
+def run_api(chk, replay):
+    quick = chk.tier == "quick"
+    chk.mc(vf.tlc_mc("IqApi.tla", "IqApi.cfg", workers=TLC_WORKERS), "IqApi.cfg")
+    names = _api_names()
+    if replay is not None:
+        behs = replay
+    else:
+        env = {"QXV_NAPIS": str(len(names))}
+        g1, st1 = vf.tlc_gen("IqApiGen.tla", "IqApiGenAll.cfg" if quick else "IqApiGenAll4.cfg", env=env)
+        g2, st2 = vf.tlc_gen("IqApiGen.tla", "IqApiGenMamTour.cfg")
+        g3, st3 = ([], {"behaviours": 0}) if quick else vf.tlc_gen("IqApiGen.tla", "IqApiGenMam.cfg")
+        behs = vf.maximal_behaviours(g2 + g3 + g1)
+        for b in behs:
+            st = b["steps"][0]
+            st["name"] = names[st["api"]["i"] - 1] if st["api"]["k"] == "gen" else \
+                "mam.retrieveMessages" + ("+e2ee" if st["api"]["k"] == "mame" else "")
+            b["layer"] = "api"
+        chk.cov["generation_api"] = {"registry_size": len(names), "all_answer_scripts": st1, "archive_tour": st2, "archive_all_paths": st3}
+    if not behs:
+        return
+    s, cases, crashes = _replay_api(chk, behs)
+    chk.add("traces_validated_against_impl", s["cases"])
+    chk.add("trace_lines", s["lines"])
+    chk.add("diverged_executions", s["ndiv"])
+    chk.add("aborted_executions", s["aborts"] - len(crashes))
+    chk.cov["api"] = {"executions": s["cases"], "trace_lines": s["lines"], "diverged": s["ndiv"], "first_divergences": s["divs"][:3],
+                      "aborted": s["aborts"] - len(crashes), "crashed": len(crashes), "apis": len(names),
+                      "replay_wall_s": s["replay_wall_s"], "trace_validation_wall_s": s["wall_s"]}
+    for b in behs[:1] + behs[-1:]:
+        chk.sample(b)
+    s["aborts"] -= len(crashes)
+    _aborts(chk, s, behs, cases, "api")
+    _report(chk, s, behs, cases, "api", "a")
+    # a request whose answer crashes the process never completes
+    per_api = {}
+    for case_no, sg, err in crashes:
+        b = behs[case_no - 1]
+        done = [x for x in cases.get(f"a{case_no}", []) if x.get("e") not in ("Reset", "Crash")]
+        upto = b["steps"][:len(done) + 1]
+        name = b["steps"][0].get("name", "?")
+        if per_api.get(name, 0) >= 1:
+            continue
+        per_api[name] = per_api.get(name, 0) + 1
+        sig = "C07:api:Crash:" + ",".join(_step(st) for st in upto)
+        chk.violation(sig, f"the process dies ({sg}) while the library handles the last step of {sig}: the request never completes\n{err[-600:]}",
+                      [b] + cases.get(f"a{case_no}", []))
+
+
 def run(chk, replay=None):
     rb = None
     if replay:
         rb = [b for b in vf.read_ndjson(replay) if "steps" in b]
     tracker = None if rb is None else [b for b in rb if b.get("layer", "tracker") == "tracker"]
     run_tracker(chk, tracker)
+    run_api(chk, None if rb is None else [b for b in rb if b.get("layer") == "api"])
     chk.cov["exhaustive"] = True
     chk.cov["rule"] = ("raw layer: transition tour of the one-request model (every transition, all sender classes and iq types), "
                        "transition tour of the two-request model, seeded random walks with three requests; each replayed on a real "
                        "QXmppClient (sendIq, sendGenericIq) connected to a scripted server over 127.0.0.1 (real SASL, bind, XEP-0198 "
-                       "enable/resume/failed resume, cut, disconnectFromServer, destruction) and validated by IqTrackerTrace.tla")
+                       "enable/resume/failed resume, cut, disconnectFromServer, destruction) and validated by IqTrackerTrace.tla; "
+                       "manager layer: for every entry of the registry of request APIs (qxv iqapi --list) every answer script up to the "
+                       "all-paths depth over {reply from addressee|stranger} x {empty result, error, foreign payload} and session close, "
+                       "for archive queries (with and without an encryption extension) a transition tour and all paths over message "
+                       "results, replies, decryption completions in any order and close; validated by IqApiTrace.tla")
     chk.assumptions += [
         "a reply without `from` is the user's own server speaking (RFC 6120 8.1.2.1) and may complete any request (accepted by design)",
         "replies from the own bare JID / server domain to a request addressed elsewhere, and from the own full JID / another own "
         "resource / the server domain to a request without addressee, may be treated either way",
         "the server resumes only the session that ended last",
         "request ids are not reused within an execution",
+        "a task obtained from sendGenericIq (chained with the client as context) is abandoned, not completed, when the client "
+        "object is destroyed (C13: no continuation after its context died); raw sendIq tasks are cancelled",
+        "manager layer: an API is settled when the scripted server holds no unanswered request of the call and the stub "
+        "encryption extension holds no unfinished decryption job; send-only APIs (subscribeTo, notifyContact) are not requests",
     ]
